@@ -1,6 +1,7 @@
 import TsVerif.C10.Judge
 import TsVerif.C10.Move
 import TsVerif.C10.Marks
+import TsVerif.Common.LengthAlgebra
 /-!
 # C10 — Editing a tree keeps every untouched node in sync with the new text
 
@@ -30,8 +31,13 @@ Boundary conventions fixed here (read off the C code): the change is the half-op
 whose content starts at or after `old_end` is shifted (also for a pure insertion exactly at its
 start).  * touched (incl. via look-ahead) ⇒ has_changes, for every node incl. ancestors ........ `edit_marks`
 
+* row/column arithmetic the edit relies on (over the generated point/length definitions): monoid laws,
+  cancellation `length_sub (length_add a b) a = b`, and `extent (x ++ y) = point_add (extent x) (extent y)`
+  for the newline-counting text model ........ `TsVerif.point_add_assoc`, `point_sub_add_cancel`,
+  `length_sub_add_cancel`, `extent_append`, `lengthOf_sub_prefix` (Common/LengthAlgebra.lean)
+
 OPEN (judged on every real edited tree, not yet proved for the model): the row/column
-dimension of kept/shifted.
+dimension of kept/shifted at tree level.
 -/
 namespace TsVerif.C10
 open TsGen TsVerif
